@@ -58,6 +58,8 @@ Counter f_devfail("fault.stream.fail");
 Counter f_unbuffered("fault.stream.unbuffered");
 Counter f_tinybuf("fault.stream.tinybuf");
 Counter f_bigbuf("fault.stream.buffered");
+Counter p_unwinding("probe.statement_issued_during_stack_unwinding");
+Counter p_static_init("probe.statement_issued_during_static_initialisation");
 Counter p_nothing_streamed("probe.statement_with_nothing_streamed");
 Counter p_big_record("probe.record_longer_than_4096_bytes");
 Counter p_named_overlap("probe.two_named_streams_of_one_thread_overlap");
@@ -97,6 +99,8 @@ struct Stmt
     bool begun = false, ended = false, threw = false;
     uint32_t begin_seq = 0, end_seq = 0;
     int gates = 0, records = 0;
+    int gate_sev = -1;      // what the filter saw (last evaluation)
+    std::string gate_tag;
     std::vector<std::array<int, 3>> th_states;
     std::vector<int> put_done;
     struct Call
@@ -260,6 +264,10 @@ struct Traced : Inner
         {
             s->gates++;
             g.tseq[Scheduler::self_id()]++;
+            NoFault nf;
+            constexpr bool has_tag = nl::detail::has_attribute<nl::tag_attribute, R>::value;
+            s->gate_sev = static_cast<int>(static_cast<const R&>(r).severity());
+            s->gate_tag = tag_of(r, std::integral_constant<bool, has_tag>());
         }
         return Inner::filter(r);
     }
@@ -432,7 +440,12 @@ std::string render(const Item& it)
         break;
     case 'n':
     case 'm':
+    case 'a':
         o << "cl";
+        break;
+    case 'r':
+    case 'y':
+        o << "L" << it.val;
         break;
     case 'z':
         o << odd_string(it);
@@ -468,7 +481,7 @@ std::vector<Item> parse_items(const std::string& s)
         it.val = n;
         if (i < s.size() && s[i] == ',')
             ++i;
-        if (strchr("sBkhiuldbpcgfxnmz", it.kind))
+        if (strchr("sBkhiuldbpcgfxnmzrya", it.kind))
             v.push_back(it);
         if (v.size() >= 8)
             break;
@@ -499,7 +512,8 @@ struct Lazy
         return "L" + std::to_string(val);
     }
 };
-inline std::string stateless_callable_body()
+template <typename... None>
+inline std::string stateless_callable_body(None...)
 {
     yield(YK_CALLABLE);
     int me = Scheduler::self_id();
@@ -619,6 +633,15 @@ decltype(auto) with_item(int stmt, int k, const Item& it, F&& f)
         return f([]() -> std::string { return stateless_callable_body(); }); // captureless lambda
     case 'm':
         return f(&plain_function); // plain function pointer
+    case 'a':
+        return f([](auto... none) -> std::string { return stateless_callable_body(none...); }); // generic lambda
+    case 'r':
+    {
+        Lazy lz{ stmt, k, it.val, false };
+        return f(std::ref(lz)); // std::reference_wrapper<Lazy> is callable too
+    }
+    case 'y':
+        return f(std::bind(Lazy{ stmt, k, it.val, false })); // a bind expression
 #endif
     case 'z':
     {
@@ -657,15 +680,25 @@ struct NamedBase
     virtual void put(PutCtx& pc, const Item& it, int k) = 0;
 };
 
-template <typename L, int Sev>
+// The entry points with and without a tag argument are used through separate helpers (they may be
+// different overloads with different stream types).
+template <typename L, int Sev, bool Tagged>
 struct Make;
 #define MAKE(N, FN)                                                                                \
     template <typename L>                                                                          \
-    struct Make<L, N>                                                                              \
+    struct Make<L, N, true>                                                                        \
     {                                                                                              \
         static auto go(const char* tag)                                                            \
         {                                                                                          \
-            return tag ? L::FN(tag) : L::FN();                                                     \
+            return L::FN(tag);                                                                     \
+        }                                                                                          \
+    };                                                                                             \
+    template <typename L>                                                                          \
+    struct Make<L, N, false>                                                                       \
+    {                                                                                              \
+        static auto go(const char*)                                                                \
+        {                                                                                          \
+            return L::FN();                                                                        \
         }                                                                                          \
     };
 MAKE(0, trace)
@@ -675,11 +708,11 @@ MAKE(3, warn)
 MAKE(4, error)
 MAKE(5, fatal)
 
-template <typename L, int Sev>
+template <typename L, int Sev, bool Tagged>
 struct Named : NamedBase
 {
-    decltype(Make<L, Sev>::go(nullptr)) s;
-    Named(const char* tag, const std::string& id) : s(Make<L, Sev>::go(tag))
+    decltype(Make<L, Sev, Tagged>::go(nullptr)) s;
+    Named(const char* tag, const std::string& id) : s(Make<L, Sev, Tagged>::go(tag))
     {
         if (!id.empty())
             s << id;
@@ -737,10 +770,20 @@ struct Ops
     template <int Sev>
     static void expr1(const char* tag, PutCtx& pc, const std::vector<Item>& items)
     {
-        if (pc.id.empty())
-            chain(Make<L, Sev>::go(tag), pc, items, 0);
+        if (tag)
+        {
+            if (pc.id.empty())
+                chain(Make<L, Sev, true>::go(tag), pc, items, 0);
+            else
+                chain(Make<L, Sev, true>::go(tag) << pc.id, pc, items, 0);
+        }
         else
-            chain(Make<L, Sev>::go(tag) << pc.id, pc, items, 0);
+        {
+            if (pc.id.empty())
+                chain(Make<L, Sev, false>::go(tag), pc, items, 0);
+            else
+                chain(Make<L, Sev, false>::go(tag) << pc.id, pc, items, 0);
+        }
     }
     static void expr_stmt(int sev, const char* tag, PutCtx& pc, const std::vector<Item>& items)
     {
@@ -765,30 +808,34 @@ struct Ops
         switch (sev)
         {
         case 0:
-            return new Named<L, 0>(tag, id);
+            return tag ? static_cast<NamedBase*>(new Named<L, 0, true>(tag, id)) : static_cast<NamedBase*>(new Named<L, 0, false>(tag, id));
         case 1:
-            return new Named<L, 1>(tag, id);
+            return tag ? static_cast<NamedBase*>(new Named<L, 1, true>(tag, id)) : static_cast<NamedBase*>(new Named<L, 1, false>(tag, id));
         case 2:
-            return new Named<L, 2>(tag, id);
+            return tag ? static_cast<NamedBase*>(new Named<L, 2, true>(tag, id)) : static_cast<NamedBase*>(new Named<L, 2, false>(tag, id));
         case 3:
-            return new Named<L, 3>(tag, id);
+            return tag ? static_cast<NamedBase*>(new Named<L, 3, true>(tag, id)) : static_cast<NamedBase*>(new Named<L, 3, false>(tag, id));
         case 4:
-            return new Named<L, 4>(tag, id);
+            return tag ? static_cast<NamedBase*>(new Named<L, 4, true>(tag, id)) : static_cast<NamedBase*>(new Named<L, 4, false>(tag, id));
         default:
-            return new Named<L, 5>(tag, id);
+            return tag ? static_cast<NamedBase*>(new Named<L, 5, true>(tag, id)) : static_cast<NamedBase*>(new Named<L, 5, false>(tag, id));
         }
     }
     template <int Sev>
     static constexpr bool is_null()
     {
-        using T = decltype(Make<L, Sev>::go(nullptr));
-        return std::is_empty<T>::value && std::is_trivially_destructible<T>::value;
+        using T = decltype(Make<L, Sev, false>::go(nullptr));
+        using U = decltype(Make<L, Sev, true>::go(nullptr));
+        return std::is_empty<T>::value && std::is_trivially_destructible<T>::value && std::is_empty<U>::value &&
+               std::is_trivially_destructible<U>::value;
     }
     template <int Sev>
     static constexpr bool is_live()
     {
-        using T = decltype(Make<L, Sev>::go(nullptr));
-        return !std::is_empty<T>::value && !std::is_trivially_destructible<T>::value;
+        using T = decltype(Make<L, Sev, false>::go(nullptr));
+        using U = decltype(Make<L, Sev, true>::go(nullptr));
+        return !std::is_empty<T>::value && !std::is_trivially_destructible<T>::value && !std::is_empty<U>::value &&
+               !std::is_trivially_destructible<U>::value;
     }
     static LoggerEntry entry(int expr, int sink)
     {
@@ -803,6 +850,51 @@ struct Ops
                             { is_live<0>(), is_live<1>(), is_live<2>(), is_live<3>(), is_live<4>(), is_live<5>() } };
     }
 };
+
+// A logger whose user-supplied filter keeps its threshold in a member set by its constructor.  A
+// global object logs through it during static initialisation: the statement is below that
+// threshold and must be rejected, which requires the logger's parts to be constructed by then.
+int g_static_init_deliveries = 0;
+int g_static_init_statements = 0;
+template <typename R>
+struct StatefulFilter
+{
+    typedef R record_type;
+    int min_level;
+    StatefulFilter() : min_level(static_cast<int>(nl::severity_level::fatal))
+    {
+    }
+    bool filter(R& r) const
+    {
+        return static_cast<int>(static_cast<const R&>(r).severity()) >= min_level;
+    }
+};
+template <typename R>
+struct ProbeFormatter
+{
+    std::string format(R& r)
+    {
+        ++g_static_init_deliveries;
+        return static_cast<const R&>(r).message();
+    }
+};
+struct ProbeSink
+{
+    void sink(nl::severity_level, const std::string&)
+    {
+    }
+};
+using StaticRec = nl::record<nl::severity_attribute, nl::message_attribute, nl::timestamp_clock_attribute<std::chrono::steady_clock>>;
+using StaticL = nl::logger<StaticRec, ProbeFormatter, ProbeSink, StatefulFilter>;
+struct StaticInitProbe
+{
+    StaticInitProbe()
+    {
+        StaticL::error() << "logged while globals are still being constructed";
+        StaticL::info() << "so is this";
+        g_static_init_statements = 2;
+    }
+} g_static_init_probe;
 
 using Seq3 = nl::sink::sequence<RecSink<0>, RecSink<1>, RecSink<2>>;
 using SeqMt = nl::sink::sequence<nl::sink::stdout_mt, nl::sink::StdErrThreaded>;
@@ -853,7 +945,7 @@ enum Kind
 const std::vector<OpSchema>& ls_schema()
 {
     static const std::vector<OpSchema> s = {
-        { "stmt", { "thread", "sev", "tag" } },     { "open", { "thread", "slot", "sev", "tag" } },
+        { "stmt", { "thread", "sev", "tag", "unwinding" } },     { "open", { "thread", "slot", "sev", "tag" } },
         { "put", { "thread", "slot", "n" } },       { "close", { "thread", "slot" } },
         { "set_threshold", { "thread", "n", "level" } }, { "clock_jump", { "thread", "delta" } },
     };
@@ -1011,9 +1103,9 @@ public:
             }
             for (int k = 0; k < n; k++)
             {
-                static const char kinds[] = "sskhiuldbppccgfxnmz";
+                static const char kinds[] = "sskhiuldbppccgfxnmzrya";
                 char kd = kinds[rng.below(sizeof kinds - 1)];
-                if ((kd == 'c' || kd == 'g' || kd == 'f' || kd == 'n' || kd == 'm') && !lazy_ok)
+                if (strchr("cgfnmrya", kd) && !lazy_ok)
                     kd = 's';
                 if (kd == 'x' && !throw_ok)
                     kd = 'c';
@@ -1051,6 +1143,7 @@ public:
                     op.a[0] = t;
                     op.a[1] = sev;
                     op.a[2] = tg;
+                    op.a[3] = rng.chance(1, 12);
                     op.s = gen_items();
                     prog[static_cast<size_t>(t)].push_back(op);
                 }
@@ -1306,15 +1399,54 @@ public:
                         begin_stmt(si);
                         sch.t[t].holds_interest = true;
                         PutCtx pc{ si, s.noid ? std::string() : stmt_id(s.thread, si) };
-                        try
+                        if (op.a[3] & 1)
                         {
-                            FaultWindow w;
-                            le.expr_stmt(s.sev, TAGS[s.tag], pc, s.items);
+                            // a complete statement issued from a destructor while another exception
+                            // is propagating (clean-up code that logs): it is a statement like any other
+                            struct Unrelated
+                            {
+                            };
+                            struct Guard
+                            {
+                                const LoggerEntry& le;
+                                Stmt& s;
+                                PutCtx& pc;
+                                ~Guard()
+                                {
+                                    try
+                                    {
+                                        FaultWindow w;
+                                        le.expr_stmt(s.sev, TAGS[s.tag], pc, s.items);
+                                    }
+                                    catch (CallableThrow&)
+                                    {
+                                        s.threw = true;
+                                        pc.abort();
+                                    }
+                                }
+                            };
+                            p_unwinding++;
+                            try
+                            {
+                                Guard guard{ le, s, pc };
+                                throw Unrelated();
+                            }
+                            catch (Unrelated&)
+                            {
+                            }
                         }
-                        catch (CallableThrow&)
+                        else
                         {
-                            s.threw = true;
-                            pc.abort();
+                            try
+                            {
+                                FaultWindow w;
+                                le.expr_stmt(s.sev, TAGS[s.tag], pc, s.items);
+                            }
+                            catch (CallableThrow&)
+                            {
+                                s.threw = true;
+                                pc.abort();
+                            }
                         }
                         end_stmt(si);
                         tc.cur_stmt = -1;
@@ -1449,6 +1581,13 @@ public:
         (void)plan;
         (void)cfg;
         NoFault nf;
+        if (g_static_init_statements)
+        {
+            p_static_init++;
+            if (g_static_init_deliveries && LOGSIM_MIN <= 4)
+                return flag("C05/spurious", "static-initialisation stateful-user-filter", -1,
+                            std::to_string(g_static_init_deliveries) + " statement(s) issued during static initialisation were delivered although the logger's filter rejects them");
+        }
         if (g.unavailable_item)
             return flag("C10/ill-formed", std::string("item=") + (g.unavailable_item == 'f' ? "callable-returning-const-char*" : g.unavailable_item == 'g' ? "std::function" : "function-object-or-lambda"),
                         -1, "streaming this kind of lazily evaluated callable into a log statement no longer compiles");
@@ -1475,7 +1614,7 @@ public:
             int nfmt = static_cast<int>(s.fmts.size());
             int ncall_items = 0;
             for (auto& it : s.items)
-                if (strchr("cgfxnm", it.kind))
+                if (strchr("cgfxnmrya", it.kind))
                     ++ncall_items;
             (void)ncall_items;
             // expected message = id + renderings of completed insertions, in order
@@ -1500,6 +1639,16 @@ public:
                     return flag("C10/formatter-or-sink-called-when-rejected", sig + " below-min", s.op, "formatter/sink reached below the compile-time minimum");
                 continue;
             }
+            if (s.gates)
+            {
+                // the filter decides about THIS statement: the record it is shown carries the
+                // statement's severity and tag
+                std::string want_gate_tag = le.has_tag && TAGS[s.tag] ? TAGS[s.tag] : "";
+                if (s.gate_sev != s.sev)
+                    return flag("C05/severity", sig + " at-filter", s.op, "the filter was shown severity " + std::to_string(s.gate_sev) + " for a statement of severity " + std::to_string(s.sev));
+                if (s.gate_tag != want_gate_tag)
+                    return flag("C05/tag", sig + " at-filter", s.op, "the filter was shown tag '" + s.gate_tag + "' for a statement tagged '" + want_gate_tag + "'");
+            }
             bool any_true = false, any_false = false;
             for (auto& th : s.th_states)
                 (ref_eval(le.expr, th.data(), s.sev) ? any_true : any_false) = true;
@@ -1518,7 +1667,7 @@ public:
                     return flag("C10/formatter-or-sink-called-when-rejected", sig, s.op,
                                 std::string("statement rejected by filter ") + EXPRNAME[le.expr] + " reached the formatter/sink");
                 for (auto& it : s.items)
-                    if (strchr("cgfxnm", it.kind))
+                    if (strchr("cgfxnmrya", it.kind))
                     {
                         p_callable_rejected++;
                         break;
@@ -1560,7 +1709,7 @@ public:
                         return flag("C10/callable-deferred", sig, s.op, "callable invoked outside the insertion that streamed it");
                 }
                 for (int k : s.put_done)
-                    if (strchr("cgfnm", s.items[static_cast<size_t>(k)].kind))
+                    if (strchr("cgfnmrya", s.items[static_cast<size_t>(k)].kind))
                     {
                         p_callable_emitted++;
                         if (cnt[k] != 1)
@@ -1843,6 +1992,61 @@ extern "C"
             return __real_sched_yield();
         s.spin_yield();
         return 0;
+    }
+}
+
+// Condition variables are used through libstdc++.so, whose calls --wrap cannot redirect; these
+// definitions in the executable interpose the libc symbols for the whole process instead.
+#include <dlfcn.h>
+namespace
+{
+template <typename F>
+F real_sym(const char* name)
+{
+    return reinterpret_cast<F>(dlsym(RTLD_NEXT, name));
+}
+} // namespace
+extern "C"
+{
+    int pthread_cond_wait(pthread_cond_t* c, pthread_mutex_t* m)
+    {
+        static auto real = real_sym<int (*)(pthread_cond_t*, pthread_mutex_t*)>("pthread_cond_wait");
+        Scheduler& s = Scheduler::get();
+        if (!s.in_sim())
+            return real(c, m);
+        return s.cond_wait(c, m, false);
+    }
+    int pthread_cond_timedwait(pthread_cond_t* c, pthread_mutex_t* m, const struct timespec* ts)
+    {
+        static auto real = real_sym<int (*)(pthread_cond_t*, pthread_mutex_t*, const struct timespec*)>("pthread_cond_timedwait");
+        Scheduler& s = Scheduler::get();
+        if (!s.in_sim())
+            return real(c, m, ts);
+        return s.cond_wait(c, m, true);
+    }
+    int pthread_cond_clockwait(pthread_cond_t* c, pthread_mutex_t* m, clockid_t ck, const struct timespec* ts)
+    {
+        static auto real = real_sym<int (*)(pthread_cond_t*, pthread_mutex_t*, clockid_t, const struct timespec*)>("pthread_cond_clockwait");
+        Scheduler& s = Scheduler::get();
+        if (!s.in_sim())
+            return real(c, m, ck, ts);
+        return s.cond_wait(c, m, true);
+    }
+    int pthread_cond_signal(pthread_cond_t* c)
+    {
+        static auto real = real_sym<int (*)(pthread_cond_t*)>("pthread_cond_signal");
+        Scheduler& s = Scheduler::get();
+        if (!s.in_sim())
+            return real(c);
+        return s.cond_signal(c, false);
+    }
+    int pthread_cond_broadcast(pthread_cond_t* c)
+    {
+        static auto real = real_sym<int (*)(pthread_cond_t*)>("pthread_cond_broadcast");
+        Scheduler& s = Scheduler::get();
+        if (!s.in_sim())
+            return real(c);
+        return s.cond_signal(c, true);
     }
 }
 
